@@ -35,25 +35,51 @@ func checkC13(c *Ctx) {
 		if !ok || w.Fresh {
 			continue
 		}
-		fl := NewFlow(p, w.Fn)
-		k, v := fl.K.Key(mu.Key), fl.K.Key(mu.Value)
-		facts := fl.At(mu)
-		switch {
-		case k == kBlockHash+v+")":
-			c.Held("C13.1", shortName(w.Fn)+": blocks[b.Hash()] = b", p.InstrPos(mu), "stored under the block's own hash")
-			if w.Fn == store {
-				// C13.2 no write when present
-				ok := falseOf(facts, is("p0->"+kBC+"blocks["+k+"]#1"))
-				c.Check(ok, "C13.2", "Store: storing an existing block changes nothing", p.InstrPos(mu),
-					"the table is written only when blocks[b.Hash()] is absent", "write reachable when the hash is already present; facts: "+join(facts.Sorted()))
+		// a write in a private helper is judged from each operation that calls it, in that operation's terms
+		type view struct {
+			root  *ssa.Function
+			k, v  string
+			facts FactSet
+		}
+		var views []view
+		get := p.Method("security/blockchain", "Blockchain", "Get")
+		if w.Fn == store || w.Fn == get {
+			fl := NewFlow(p, w.Fn)
+			views = append(views, view{w.Fn, fl.K.Key(mu.Key), fl.K.Key(mu.Value), fl.At(mu)})
+		} else {
+			for _, root := range []*ssa.Function{store, get} {
+				if root == nil {
+					continue
+				}
+				for _, d := range deepInstrs(NewFlow(p, root), func(in ssa.Instruction) bool { return in == ssa.Instruction(mu) }, 0) {
+					views = append(views, view{root, d.Key(mu.Key), d.Key(mu.Value), d.Facts})
+				}
 			}
-		case k == "p1" && strings.Contains(v, "Sender).RequestBlock(") && strings.Contains(v, ", p1)") && strings.HasSuffix(v, "#0"):
-			ok := trueOf(facts, is(strings.TrimSuffix(v, "#0")+"#1"))
-			c.Check(ok, "C13.1", shortName(w.Fn)+": blocks[hash] = fetched block", p.InstrPos(mu),
-				"the block returned by sender.RequestBlock(ctx, hash) with ok is stored under the requested hash (validated by the network layer, below)",
-				"fetched block stored without a successful fetch; facts: "+join(facts.Sorted()))
-		default:
-			c.Violated("C13.1", shortName(w.Fn)+": write to blocks", p.InstrPos(mu), "blocks["+k+"] = "+v+": the key is neither the stored block's hash nor the requested hash of a fetch")
+			if len(views) == 0 {
+				fl := NewFlow(p, w.Fn)
+				views = append(views, view{w.Fn, fl.K.Key(mu.Key), fl.K.Key(mu.Value), fl.At(mu)})
+			}
+		}
+		for _, vw := range views {
+			k, v, facts := vw.k, vw.v, vw.facts
+			w := FieldWrite{Fn: vw.root, Instr: w.Instr}
+			switch {
+			case k == kBlockHash+v+")":
+				c.Held("C13.1", shortName(w.Fn)+": blocks[b.Hash()] = b", p.InstrPos(mu), "stored under the block's own hash")
+				if w.Fn == store {
+					// C13.2 no write when present
+					ok := falseOf(facts, is("p0->"+kBC+"blocks["+k+"]#1"))
+					c.Check(ok, "C13.2", "Store: storing an existing block changes nothing", p.InstrPos(mu),
+						"the table is written only when blocks[b.Hash()] is absent", "write reachable when the hash is already present; facts: "+join(facts.Sorted()))
+				}
+			case k == "p1" && strings.Contains(v, "Sender).RequestBlock(") && strings.Contains(v, ", p1)") && strings.HasSuffix(v, "#0"):
+				ok := trueOf(facts, is(strings.TrimSuffix(v, "#0")+"#1"))
+				c.Check(ok, "C13.1", shortName(w.Fn)+": blocks[hash] = fetched block", p.InstrPos(mu),
+					"the block returned by sender.RequestBlock(ctx, hash) with ok is stored under the requested hash (validated by the network layer, below)",
+					"fetched block stored without a successful fetch; facts: "+join(facts.Sorted()))
+			default:
+				c.Violated("C13.1", shortName(w.Fn)+": write to blocks", p.InstrPos(mu), "blocks["+k+"] = "+v+": the key is neither the stored block's hash nor the requested hash of a fetch")
+			}
 		}
 	}
 	// per-view index written alongside, keyed by the block's view
